@@ -39,11 +39,10 @@ inductive DiPath (G : MG α) : α → List α → α → Prop
   | single (a : α) : DiPath G a [a] a
   | cons {a b c : α} {p : List α} : G.DiEdge a b → DiPath G b p c → DiPath G a (a :: p) c
 
-/-- the mathematical content of `get_nodes_in_directed_paths(G, S, T)`: `v` lies on a simple directed path `p`
-from a member of `S` to a member of `T`.  `minLen` is the least number of nodes of the paths that count:
-the implementation for acyclic graphs counts paths with at least one edge (`minLen = 2`), the one for cyclic
-graphs (`nx.all_simple_paths`) also the trivial path `[s]` for `s ∈ S ∩ T` (`minLen = 1`). -/
-def OnSimpleDiPath (G : MG α) (minLen : Nat) (S T : List α) (v : α) : Prop :=
-  ∃ s ∈ S, ∃ t ∈ T, ∃ p, G.DiPath s p t ∧ p.Nodup ∧ minLen ≤ p.length ∧ v ∈ p
+/-- the mathematical content of `get_nodes_in_directed_paths(G, S, T)`: `v` lies on a simple directed path with
+at least one edge (`2 ≤ p.length`) from a member of `S` to a member of `T`.  A member of `S ∩ T` therefore counts
+only if it lies on such a path. -/
+def OnSimpleDiPath (G : MG α) (S T : List α) (v : α) : Prop :=
+  ∃ s ∈ S, ∃ t ∈ T, ∃ p, G.DiPath s p t ∧ p.Nodup ∧ 2 ≤ p.length ∧ v ∈ p
 
 end Y0.MG
